@@ -830,3 +830,38 @@ func (i *interpreter) symstrBinop(op token.Token, x, y value) value {
 	}
 	panic(unsupported{fmt.Sprintf("string operation %s on a symbolic string atom", op)})
 }
+
+// fpFromBits builds the float with the given IEEE bit pattern and remembers
+// the pattern so that Float64bits of it returns exactly those bits.
+func (px *pathCtx) fpFromBits(b sym, w int) sym {
+	eb, sb := 11, 53
+	if w == 32 {
+		eb, sb = 8, 24
+	}
+	f := px.mk(kFP, w, fmt.Sprintf("((_ to_fp %d %d) %s)", eb, sb, b.t))
+	if px.fpBits == nil {
+		px.fpBits = map[string]sym{}
+	}
+	px.fpBits[f.t] = b
+	return f
+}
+
+// fpToBits returns the IEEE bits of a float term.
+func (px *pathCtx) fpToBits(f sym) sym {
+	if b, ok := px.fpBits[f.t]; ok {
+		return b
+	}
+	eb, sb := 11, 53
+	if f.w == 32 {
+		eb, sb = 8, 24
+	}
+	px.nsym++
+	b := sym{kBV, f.w, "fb" + strconv.Itoa(px.nsym)}
+	px.emit("(declare-const " + b.t + " " + b.sort() + ")")
+	px.assertTerm(fmt.Sprintf("(= %s ((_ to_fp %d %d) %s))", f.t, eb, sb, b.t))
+	if px.fpBits == nil {
+		px.fpBits = map[string]sym{}
+	}
+	px.fpBits[f.t] = b
+	return b
+}
